@@ -119,8 +119,16 @@ func (e *c09ex) Exec(op string) string {
 		return "bad-op"
 	}
 	key := func(sym, k string) string {
-		if k == "right" {
+		switch k {
+		case "right":
 			return "key-" + sym
+		// the preimage with blanks around it is another byte string: a wrong key
+		case "rightws":
+			return "key-" + sym + " "
+		case "wsright":
+			return " key-" + sym
+		case "rightnl":
+			return "key-" + sym + "\n"
 		}
 		return "wrong-" + sym
 	}
@@ -206,11 +214,14 @@ func (e *c09ex) Exec(op string) string {
 			return "err"
 		}
 		return "ok"
-	case "done":
+	case "done", "doneU":
 		if len(w) != 3 {
 			return "bad-op"
 		}
 		id := e.id(w[1])
+		if w[0] == "doneU" {
+			id = strings.ToUpper(id) // the id in upper case names no record
+		}
 		r := e.b.Invoke(wd.Client.Creator, simpeer.NewTxID(), "multiSwapDone", id, key(w[1], w[2]))
 		if !r.OK() {
 			return "err"
@@ -247,6 +258,15 @@ func (e *c09ex) Exec(op string) string {
 			c = e.b
 		}
 		return okErr(c.Do(e.u(w[2]), "multiSwapCancel", e.id(w[1])))
+	case "cancelAU", "cancelBU":
+		if len(w) != 3 || e.u(w[2]) == nil {
+			return "bad-op"
+		}
+		c := e.a
+		if w[0] == "cancelBU" {
+			c = e.b
+		}
+		return okErr(c.Do(e.u(w[2]), "multiSwapCancel", strings.ToUpper(e.id(w[1]))))
 	case "dump":
 		grp := func(c *world.Chan, addr, g string, industrial bool, tokSym string) string {
 			if industrial {
@@ -318,7 +338,11 @@ func genC09(c *Cfg, emit func([]string)) {
 				sws = append(sws, s)
 			} else {
 				s := sws[c.Rng.Intn(len(sws))]
-				switch c.Rng.Intn(12) {
+				switch c.Rng.Intn(14) {
+				case 12:
+					h = append(h, []string{"doneU " + s.sym + " right", "cancelAU " + s.sym + " " + s.user, "cancelBU " + s.sym + " " + s.user}[c.Rng.Intn(3)])
+				case 13:
+					h = append(h, []string{"done ", "done ", "rdone "}[c.Rng.Intn(3)]+s.sym+" "+[]string{"rightws", "wsright", "rightnl"}[c.Rng.Intn(3)])
 				case 0, 1, 2:
 					h = append(h, fmt.Sprintf("answer %s %s %s", s.sym, s.user, s.as))
 				case 3, 4:
@@ -357,8 +381,10 @@ func genC09(c *Cfg, emit func([]string)) {
 		} else {
 			emit([]string{"reset d lc", "fund u0 g1 100", "fund u0 g2 50", "begin m1 u0 g1:30+g2:20 batch", "dump", "answer m1 u0 g1:30+g2:20", "dump", "done m1 right", "dump", "rdone m1 right", "dump"})
 		}
+		emit([]string{"reset " + dir, "fund u0 g1 100", "begin m1 u0 g1:30 batch", "answer m1 u0 g1:30", "done m1 rightws", "done m1 wsright", "done m1 rightnl", "dump",
+			"doneU m1 right", "dump", "cancelBU m1 u0", "cancelAU m1 u0", "tickA 20000", "cancelAU m1 u0", "dump", "rdone m1 rightnl", "done m1 right", "rdone m1 rightws", "dump", "rdone m1 right", "dump"})
 		emit([]string{"reset " + dir, "fund u0 g1 100", "begin m1 u0 g1:30 batch", "answer m1 u0 g1:30", "done m1 wrong", "done m1 right", "dump", "done m1 right", "rdone m1 wrong", "rdone m1 right", "dump", "rdone m1 right", "cancelB m1 u0", "tickB 1000", "cancelB m1 u0"})
 	}
-	c.Rule = fmt.Sprintf("%d random histories: multi-swaps of 1..3 assets (also the same group twice, empty list, zero and negative amounts, 2nd/3rd asset under-funded by 1) begun through batches and task lists (incl. a second begin under an open id), answered, completed with right/wrong keys on the destination and (never allowed) on the origin record, cancelled by creator or stranger on the origin record and on the answered copy, with the destination channel spelled in lower case by the owner (forward swaps) and with a home channel that has given out less than a reverse list asks back (answer all-or-nothing: 0, one short of the first asset, between the assets, one short of the total), with the two peer clocks moved to just before / exactly at / after the timeouts; plus directed schedules for the timeout edge and repeated completion; balances of 2 owners x 2 groups on both channels, given counters and records after every step. non-trivial = contains a begin; distinct = sha256", nRand)
+	c.Rule = fmt.Sprintf("%d random histories: multi-swaps of 1..3 assets (also the same group twice, empty list, zero and negative amounts, 2nd/3rd asset under-funded by 1) begun through batches and task lists (incl. a second begin under an open id), answered, completed with right/wrong keys on the destination and (never allowed) on the origin record, completed or cancelled under the id in upper case (no such record), completed with the preimage padded by a blank or line feed (a wrong key), cancelled by creator or stranger on the origin record and on the answered copy, with the destination channel spelled in lower case by the owner (forward swaps) and with a home channel that has given out less than a reverse list asks back (answer all-or-nothing: 0, one short of the first asset, between the assets, one short of the total), with the two peer clocks moved to just before / exactly at / after the timeouts; plus directed schedules for the timeout edge and repeated completion; balances of 2 owners x 2 groups on both channels, given counters and records after every step. non-trivial = contains a begin; distinct = sha256", nRand)
 	c.Extra = map[string]any{"random": nRand}
 }
